@@ -101,7 +101,6 @@ pub assume_specification<T, E, U, F: FnOnce(T) -> Result<U, E>>[ Result::<T, E>:
 pub assume_specification<T, E, F: FnOnce(E) -> T>[ Result::<T, E>::unwrap_or_else ](res: Result<T, E>, f: F) -> (r: T)
     requires res matches Err(e) ==> f.requires((e,)),
     ensures res matches Ok(t) ==> r == t, res matches Err(e) ==> f.ensures((e,), r);
-pub exec const GRPC_TIMEOUT_HEADER: &'static str ensures GRPC_TIMEOUT_HEADER@ == "grpc-timeout"@ { "grpc-timeout" }
 '''
 
 WRITER_SPEC = r'''
@@ -236,6 +235,7 @@ def build():
     u = Unit('timeout', ['C09'])
     common.http_base(u)
     u.raw(SPEC)
+    u.exec_const('tonic/src/metadata/map.rs', 'GRPC_TIMEOUT_HEADER', ensures=[Clause('is_grpc_timeout', 'GRPC_TIMEOUT_HEADER@ == "grpc-timeout"@')], indent='')
     u.item(T, 'const', 'SECONDS_IN_HOUR')
     u.item(T, 'const', 'SECONDS_IN_MINUTE')
 
@@ -349,4 +349,49 @@ pub open spec fn timeout_of(h: HMap) -> Option<nat> {
              Clause('W2_never_longer_than_requested', 'timeout_denotes(r@)->Some_0 <= duration.nanos()'),
              Clause('W3_loses_less_than_one_unit_of_the_chosen_precision', 'duration.nanos() - timeout_denotes(r@)->Some_0 < unit_nanos(r@.last())->Some_0'),
          ])
+
+    # ---- Request::set_timeout: the written value goes into the grpc-timeout metadata entry and the conversion never panics ----
+    common.metadata_core(u, props_sanitize=('C09',))
+    u.raw('''
+// MetadataValue<Ascii> / MetadataMap::insert as used here (A-tonic-meta-01; the generic key plumbing is proved in unit metadata)
+pub struct MetadataValue { pub inner: HeaderValue }
+#[derive(Debug)]
+pub struct InvalidMetadataValue { pub x: u8 }
+// A-tonic-meta-02 (R17): str::parse::<MetadataValue<Ascii>>() is HeaderValue::from_str: Ok exactly for visible ASCII (32..=126) text
+pub open spec fn visible_text(s: Seq<char>) -> bool { forall|i: int| 0 <= i < s.len() ==> 32 <= (#[trigger] s[i]) as u32 && (s[i] as u32) < 127 }
+#[verifier::external_body]
+pub fn verif_parse_metadata_value(s: &String) -> (r: Result<MetadataValue, InvalidMetadataValue>)
+    ensures r is Ok <==> visible_text(s@), r matches Ok(v) ==> v.inner@ == ascii_bytes(s@)
+{ unimplemented!() }
+impl MetadataMap {
+    #[verifier::external_body]
+    pub fn insert(&mut self, key: &'static str, val: MetadataValue) -> (r: Option<MetadataValue>)
+        ensures final(self).headers@ == old(self).headers@.insert(key@, seq![val.inner@])
+    { unimplemented!() }
+}
+pub use crate::httpmsg::Extensions;
+pub mod metadata { pub use crate::GRPC_TIMEOUT_HEADER; }
+pub proof fn lemma_timeout_text_is_visible(v: Seq<char>)
+    requires timeout_denotes(v) is Some
+    ensures visible_text(v)
+{
+    assert forall|i: int| 0 <= i < v.len() implies 32 <= (#[trigger] v[i]) as u32 && (v[i] as u32) < 127 by {
+        if i < v.len() - 1 { assert(is_digit(v.drop_last()[i])); } else { assert(v[i] == v.last()); }
+    }
+}
+''')
+    u.item(RQ, 'struct', 'Request')
+    u._emit('impl<T> Request<T> {'); u._open_header = 'impl<T> Request<T> {'
+    u.fn(RQ, 'metadata_mut', within='impl<T> Request<T>',
+         ensures=[Clause('borrow', '*r == old(self).metadata && *final(r) == final(self).metadata && final(self).message == old(self).message && final(self).extensions == old(self).extensions')])
+    u.fn(RQ, 'set_timeout', within='impl<T> Request<T>',
+         requires=['deadline.nanos() <= 99_999_999 * 3_600_000_000_000'],
+         body_edits=[lambda t: t.sub_code('R17', r'duration_to_grpc_timeout\(deadline\)\.parse\(\)', 'verif_parse_metadata_value(&duration_to_grpc_timeout(deadline))'),
+                     lambda t: t.sub_code('R20', r'let value: MetadataValue<_> = verif_parse_metadata_value\(&duration_to_grpc_timeout\(deadline\)\)\.unwrap\(\);',
+                                          'let verif_text = duration_to_grpc_timeout(deadline); proof { lemma_timeout_text_is_visible(verif_text@); } let value: MetadataValue = verif_parse_metadata_value(&verif_text).unwrap();')],
+         ensures=[Clause('T1_the_grpc_timeout_entry_is_a_conformant_value_never_longer_than_the_deadline_and_within_one_unit_of_it',
+                         '''exists|v: Seq<char>| #[trigger] timeout_denotes(v) is Some && timeout_denotes(v)->Some_0 <= deadline.nanos() && deadline.nanos() - timeout_denotes(v)->Some_0 < unit_nanos(v.last())->Some_0
+                            && final(self).metadata.headers@ == old(self).metadata.headers@.insert("grpc-timeout"@, seq![ascii_bytes(v)])'''),
+                  Clause('T2_nothing_else_changes', 'final(self).message == old(self).message && final(self).extensions == old(self).extensions')])
+    u.close('}')
     return u
